@@ -38,7 +38,7 @@ theorem C13_written_footer_roundtrip (f : Writer.FooterData) (h : footerOk f = t
   parse_written_footer f h
 
 -- non-vacuity
-example : footerOk ⟨[⟨"a", .int32, .optional, 0⟩], "Carquet", 3,
+example : footerOk ⟨[⟨"a", .int32, .optional, 0, none⟩], "Carquet", 3,
     [⟨3, 40, 4, 40, 0, [⟨4, .int32, 1, 3, 40, 21, "a"⟩]⟩]⟩ = true := by decide +kernel
 
 end Carquet.Properties.C13
